@@ -132,7 +132,10 @@ impl<'a> Gen<'a> {
             "string" => Tree::Str(STRS[r.below(STRS.len())].to_string()),
             "integer" => Tree::Int([0, 1, -1, 2147483647, -2147483648, 42][r.below(6)]),
             "safelong" => Tree::Int([0, 9007199254740991, -9007199254740991, 1234567890123][r.below(4)]),
-            "double" => match r.below(6) {
+            "double" => match r.below(9) {
+                // any JSON number is a double: also one written as an integer, of either sign
+                6 => Tree::Int([3, 0, 1, 9007199254740991][r.below(4)]),
+                7 | 8 => Tree::Int([-3, -1, -2147483649, -9007199254740991][r.below(4)]),
                 0 => Tree::Str("NaN".into()),
                 1 => Tree::Str("Infinity".into()),
                 2 => Tree::Str("-Infinity".into()),
